@@ -1,6 +1,13 @@
-"""Implementation driver for C13/C14: the real get_task_delay under a controlled wall clock."""
+"""Implementation driver for C13/C14: the real get_task_delay under a controlled wall clock.
+
+A case may carry "host": the time zone of the machine the scheduler runs on (a POSIX TZ string such as "MSK-3",
+"EST5EDT", "IST-5:30", "NZST-12NZDT", or an IANA name resolved by the C library; absent / None = "UTC", what the harness
+environment sets).  It is installed with os.environ["TZ"] + time.tzset() before the real code is called, and the
+controlled clock answers exactly like the real datetime class on such a host: now(tz) / utcnow() report the instant,
+now() WITHOUT tz the naive local wall clock of the host zone (C library localtime(), fold included)."""
 import datetime as dt
 import os
+import time
 import zoneinfo
 
 import pytz
@@ -12,16 +19,40 @@ EP = dt.datetime(1970, 1, 1, tzinfo=dt.timezone.utc)
 NOW = [EP]
 
 
+HOST = [None]
+
+
+def set_host(host):
+    """make `host` the system time zone of this process (what TZ / /etc/localtime is on the scheduler machine)"""
+    host = host or "UTC"
+    if HOST[0] != host:
+        os.environ["TZ"] = host
+        time.tzset()
+        HOST[0] = host
+
+
+def host_offset_us(us):
+    """UTC offset of the installed host zone at instant `us` (C library), for the evidence only"""
+    off = (EP + dt.timedelta(microseconds=us)).astimezone().utcoffset()
+    return (off.days * 86400 + off.seconds) * 10**6 + off.microseconds
+
+
 class VDT(dt.datetime):
-    """datetime whose now()/utcnow() are the harness clock"""
+    """datetime whose now()/utcnow() are the harness clock, answered the way the real class answers them:
+    now(tz) = the instant in tz, utcnow() = naive UTC, now() = naive wall clock of the SYSTEM zone (TZ / tzset)"""
 
     @classmethod
     def now(cls, tz=None):
-        return NOW[0].astimezone(tz) if tz is not None else NOW[0].replace(tzinfo=None)
+        if tz is None:
+            loc = NOW[0].astimezone().replace(tzinfo=None)   # system local time: time.localtime(), honours tzset()
+        else:
+            loc = NOW[0].astimezone(tz)
+        return cls.combine(loc.date(), loc.timetz())         # an instance of the class, as datetime.now() returns
 
     @classmethod
     def utcnow(cls):
-        return NOW[0].replace(tzinfo=None)
+        loc = NOW[0].replace(tzinfo=None)
+        return cls.combine(loc.date(), loc.timetz())
 
 
 def setup(opts):
@@ -39,6 +70,8 @@ def spell(T_us, sp):
         return tt.astimezone(pytz.UTC)
     if k == "fixed":
         return tt.astimezone(dt.timezone(dt.timedelta(minutes=sp["minutes"])))
+    if k == "hostlocal":   # the host's own zone as CPython reports it (a fixed-offset tzinfo), after set_host()
+        return tt.astimezone()
     if k == "pytz":
         return tt.astimezone(pytz.timezone(sp["zone"]))
     if k == "zoneinfo":
@@ -62,12 +95,14 @@ _ZI = {}
 
 def run_case(c, opts):
     NOW[0] = EP + dt.timedelta(microseconds=c["now"])
+    set_host(c.get("host"))
     if c["type"] == "time":
         t = ScheduledTask(task_name="t", labels={}, args=[], kwargs={}, time=spell(c["T"], c["spell"]))
         r = run.get_task_delay(t)
+        host = {"host_off_us": host_offset_us(c["now"]), "local_now": VDT.now().isoformat()} if c.get("host") else {}
         if r is not None and type(r) is not int:
-            return {"delay": repr(r), "badtype": True}
-        return {"delay": r}
+            return dict(host, delay=repr(r), badtype=True)
+        return dict(host, delay=r)
     if c["type"] == "cron":
         off = c["off"]
         if off is None:
